@@ -174,7 +174,7 @@ type Exec struct {
 	recvStatic        types.Type
 	ghostGenN         int
 	curLoop           *loopCtx
-	sitesDone         bool // the site clauses of the call being modelled were already checked (before a havoc)
+	sitesDone         bool     // the site clauses of the call being modelled were already checked (before a havoc)
 	tailStmt          ast.Stmt // the last statement of the function under contract when it is an if/switch
 	guards            []guardSpec
 	guardCount        map[*types.Var]int
